@@ -4,7 +4,7 @@ C12 (sync<->async)."""
 import re
 import mirlib
 import codec
-from mirlib import short
+from mirlib import short, show
 
 FAMILIES = {
     'binary': {
@@ -129,6 +129,11 @@ def writer_reader(rep, rule, fam):
                 e = fam.endian
                 cw = fam.io(w, True)
                 good = (('io', 'fix', 'i16', e) in cw and ('io', 'slice') in cw and sr == [('io', 'b8'), ('io', 'fix', 'i16', e)])
+                # the 3-byte array is [type, id bytes in conversion order]
+                lay = header_array_layout(w)
+                if lay != {0: 'type', 1: 'id[0]', 2: 'id[1]'}:
+                    good = False
+                    why += '; array layout found %s, expected [type, id[0], id[1]]' % lay
             elif x == 'map_begin':
                 good = sw[:1] == [('io', 'b8')] and sw[1:] == sr
             elif x == 'message_begin':
@@ -144,6 +149,35 @@ def writer_reader(rep, rule, fam):
             rep.ok(rule, key, 'wire ops %s' % (sw,), w.loc())
         else:
             rep.bad(rule, key, w.loc(), '%s: write_%s emits %s but read_%s consumes %s' % (fam.name, x, sw, x, sr))
+
+
+def header_array_layout(w):
+    """index -> what is stored, for `data[k] = ...` statements of a writer that assembles a header in a byte array"""
+    out = {}
+    for bb in w.bbs:
+        if bb['cleanup']:
+            continue
+        for st in bb['st']:
+            p = st.get('p')
+            if not p or len(p['p']) != 1 or not isinstance(p['p'][0], dict):
+                continue
+            e0 = p['p'][0]
+            idx = None
+            if 'i' in e0:
+                ie = w.expr_local(e0['i'])
+                idx = ie[1] if ie[0] == 'const' else None
+            elif 'c' in e0:
+                idx = e0['c']
+            if idx is None:
+                continue
+            rv = w.expr_rvalue(st['r'])
+            txt = show(rv)
+            if 'field_type' in txt:
+                out[idx] = 'type'
+            else:
+                m = re.search(r'to_[bl]e_bytes\(\w+\)\[(\d)\]', txt)
+                out[idx] = 'id[%s]' % m.group(1) if m else txt[:30]
+    return out
 
 
 # ------------------------------------------------------------------------------------------------ R01.e
